@@ -14,6 +14,8 @@ import (
 const (
 	CustomScope            = "custom_scope"
 	CustomClaim            = "custom_claim"
+	CustomScope2           = "custom_scope2" // a second custom scope -> custom claim (C06: restriction cross)
+	CustomClaim2           = "custom_claim2"
 	ForbiddenScope         = "forbidden"                 // dropped by ValidateJWTProfileScopes
 	ImpersonateScopePrefix = "custom_scope:impersonate:" // token exchange: act as the named user
 	BlockedUser            = "blocked-user"              // token exchange is vetoed for this subject
@@ -118,16 +120,25 @@ func (s *Store) setUserinfo(u *oidc.UserInfo, userID, clientID string, scopes []
 			u.PhoneNumber = str(claims, "phone_number", "+00 "+userID)
 		case CustomScope:
 			u.AppendClaims(CustomClaim, clientID+":"+userID)
+		case CustomScope2:
+			u.AppendClaims(CustomClaim2, clientID+":"+userID)
 		}
 	}
 	return nil
 }
 
 func privateClaims(userID, clientID string, scopes []string) map[string]any {
+	var out map[string]any
 	if slices.Contains(scopes, CustomScope) {
-		return map[string]any{CustomClaim: clientID + ":" + userID}
+		out = map[string]any{CustomClaim: clientID + ":" + userID}
 	}
-	return nil
+	if slices.Contains(scopes, CustomScope2) {
+		if out == nil {
+			out = map[string]any{}
+		}
+		out[CustomClaim2] = clientID + ":" + userID
+	}
+	return out
 }
 
 // SetUserinfoFromScopes does nothing (the framework deprecated it) unless UserinfoInIDToken is set.
@@ -137,6 +148,7 @@ func (s *Store) SetUserinfoFromScopes(_ context.Context, userinfo *oidc.UserInfo
 	}
 	s.mu.Lock()
 	defer s.mu.Unlock()
+	s.noteScopes("SetUserinfoFromScopes", scopes)
 	if !s.UserinfoInIDToken {
 		return nil
 	}
@@ -188,5 +200,24 @@ func (s *Store) GetPrivateClaimsFromScopes(_ context.Context, userID, clientID s
 	if err := s.enter("GetPrivateClaimsFromScopes", userID, clientID); err != nil {
 		return nil, err
 	}
+	s.mu.Lock()
+	s.noteScopes("GetPrivateClaimsFromScopes", scopes)
+	s.mu.Unlock()
 	return privateClaims(userID, clientID, scopes), nil
+}
+
+// noteScopes records the scope list a scope-driven storage method was asked about (callers hold mu)
+func (s *Store) noteScopes(method string, scopes []string) {
+	if s.scopesAsked == nil {
+		s.scopesAsked = map[string][][]string{}
+	}
+	s.scopesAsked[method] = append(s.scopesAsked[method], append([]string(nil), scopes...))
+}
+
+// ScopesAsked: the scope lists the named method (SetUserinfoFromScopes, SetUserinfoFromRequest, GetPrivateClaimsFromScopes) was
+// called with so far, in call order (C06: which scopes does the framework hand to the storage for which token)
+func (s *Store) ScopesAsked(method string) [][]string {
+	s.mu.Lock()
+	defer s.mu.Unlock()
+	return append([][]string(nil), s.scopesAsked[method]...)
 }
